@@ -359,6 +359,9 @@ def run(chk, prog):
     ASSUMED_POSITIVE = {"fmax", "frev", "R_bend", "nfreqs", "physcons_c", "boost_math_constants_two_pi()"}
     smk = I.scan(mk)
 
+    named_conds = {d_["decl"]: d_["init"] for y_ in A.walk(mk["body"]) if y_.get("k") == "DeclStmt" for d_ in y_.get("decls", [])
+                   if d_.get("k") == "VarDecl" and d_.get("is_const") and isinstance(d_.get("init"), dict) and (d_.get("ctype") or "").replace("const ", "") == "bool"}
+
     def facts_from_guards(node):
         pos, nz = set(), set()
         for e_ in A.enclosing(idx, node, {"IfStmt"}):
@@ -376,10 +379,12 @@ def run(chk, prog):
                 continue            # the negation of a conjunction gives no per-variable fact
             conj = []
 
-            def split(n_):
+            def split(n_, depth_=0):
                 n_ = A.strip(n_)
                 if n_.get("k") == "BinaryOperator" and n_["op"] == "&&":
-                    split(n_["c"][0]); split(n_["c"][1])
+                    split(n_["c"][0], depth_); split(n_["c"][1], depth_)
+                elif n_.get("k") == "DeclRefExpr" and n_.get("decl") in named_conds and depth_ < 4:
+                    split(named_conds[n_["decl"]], depth_ + 1)        # a const bool local stands for the condition it was initialised with
                 else:
                     conj.append(n_)
             split(cond_)
